@@ -410,120 +410,6 @@ contain:
 
 // random part --------------------------------------------------------------------
 
-var (
-	queryAlpha  = []string{"a", "a", "b", "b", Glob}
-	updateAlpha = []string{"a", "a", "a", "b", "b", "b", Glob}
-	plainAlpha  = []string{"a", "a", "b"}
-)
-
-func genIndex(alpha []string, min, max int) *rapid.Generator[[]string] {
-	return rapid.Custom(func(t *rapid.T) []string {
-		n := rapid.IntRange(min, max).Draw(t, "len")
-		p := make([]string, n)
-		for i := range p {
-			p[i] = rapid.SampledFrom(alpha).Draw(t, "e")
-		}
-		return p
-	})
-}
-
-// genGPath draws a path of min..max elements; a minority carry list keys or
-// use the deprecated encoding.
-func genGPath(t *rapid.T, alpha []string, min, max int) GPath {
-	g := GPath{}
-	for _, n := range genIndex(alpha, min, max).Draw(t, "names") {
-		g.Elems = append(g.Elems, PElem{Name: n})
-	}
-	switch rapid.IntRange(0, 9).Draw(t, "form") { // 0 (what shrinking aims for) is the plain form
-	case 9:
-		g.Legacy = true
-	case 7, 8:
-		if len(g.Elems) > 0 {
-			i := rapid.IntRange(0, len(g.Elems)-1).Draw(t, "keyed")
-			g.Elems[i].Keys = map[string]string{"k": rapid.SampledFrom(alpha).Draw(t, "kv")}
-			if rapid.Bool().Draw(t, "two") {
-				// key names chosen so that name order differs from insertion order
-				g.Elems[i].Keys["j"] = rapid.SampledFrom(alpha).Draw(t, "jv")
-			}
-		}
-	}
-	return g
-}
-
-// genSubList draws a SubscriptionList obeying the gNMI origin rules (origin in
-// the prefix or in the paths, not both; no prefix elements with a path origin).
-func genSubList(t *rapid.T, targets []string) *SubList {
-	l := &SubList{Prefix: &GPath{Target: rapid.SampledFrom(targets).Draw(t, "target")}}
-	place := rapid.SampledFrom([]string{"none", "none", "prefix", "path"}).Draw(t, "origin-place")
-	if place == "prefix" {
-		l.Prefix.Origin = rapid.SampledFrom([]string{"a", "b"}).Draw(t, "origin")
-	}
-	if place != "path" {
-		pe := genGPath(t, queryAlpha, 0, 1)
-		l.Prefix.Elems, l.Prefix.Legacy = pe.Elems, pe.Legacy
-	}
-	n := rapid.IntRange(1, 3).Draw(t, "subs")
-	for i := 0; i < n; i++ {
-		if rapid.IntRange(0, 11).Draw(t, "nil-path") == 11 {
-			l.Subs = append(l.Subs, nil)
-			continue
-		}
-		g := genGPath(t, queryAlpha, 0, 3)
-		if place == "path" && rapid.IntRange(0, 3).Draw(t, "with-origin") > 0 {
-			g.Origin = rapid.SampledFrom([]string{"a", "b"}).Draw(t, "path-origin")
-		}
-		l.Subs = append(l.Subs, &g)
-	}
-	return l
-}
-
-func genNotif(t *rapid.T, maxElems int) *Notif {
-	n := &Notif{}
-	k := rapid.IntRange(1, 4).Draw(t, "entries")
-	if rapid.IntRange(0, 2).Draw(t, "single") == 2 {
-		k = 1
-	}
-	for i := 0; i < k; i++ {
-		g := genGPath(t, updateAlpha, 0, maxElems)
-		// target and origin of an entry path are documented as not indexed
-		if rapid.IntRange(0, 15).Draw(t, "entry-origin") == 15 {
-			g.Origin = "b"
-		}
-		if rapid.Bool().Draw(t, "delete") {
-			n.Deletes = append(n.Deletes, g)
-		} else {
-			n.Updates = append(n.Updates, g)
-		}
-	}
-	return n
-}
-
-func genOp(t *rapid.T) Op {
-	kind := rapid.SampledFrom([]string{"add", "add", "add", "sublist", "remove", "remove", "update", "notify", "notify", "notify"}).Draw(t, "kind")
-	op := Op{Kind: kind}
-	switch kind {
-	case "add":
-		op.Client = rapid.IntRange(0, 3).Draw(t, "client")
-		op.Path = genIndex(queryAlpha, 0, 4).Draw(t, "query")
-	case "sublist":
-		op.Client = rapid.IntRange(0, 3).Draw(t, "client")
-		op.List = genSubList(t, []string{"", "a", "a", "b", Glob})
-	case "remove":
-		op.Reg = rapid.IntRange(0, 11).Draw(t, "reg")
-	case "update":
-		op.Path = genIndex(updateAlpha, 0, 4).Draw(t, "path")
-	case "notify":
-		op.Prefix = genIndex(plainAlpha, 0, 2).Draw(t, "prefix")
-		op.Spare = rapid.IntRange(0, 3).Draw(t, "spare")
-		op.Notif = genNotif(t, 3)
-	}
-	return op
-}
-
-func genScenario(t *rapid.T) *Scenario {
-	return &Scenario{Ops: rapid.SliceOfN(rapid.Custom(genOp), 1, 30).Draw(t, "ops")}
-}
-
 // TestC06Random runs operation sequences on a match.Match with recording clients.
 func TestC06Random(t *testing.T) {
 	if !vstat.Enabled("C06") {
@@ -545,31 +431,6 @@ func TestC06Random(t *testing.T) {
 }
 
 // server part --------------------------------------------------------------------
-
-func genSrvOp(t *rapid.T) SrvOp {
-	kind := rapid.SampledFrom([]string{"sub", "sub", "end", "notify", "notify", "notify"}).Draw(t, "kind")
-	op := SrvOp{Kind: kind}
-	switch kind {
-	case "sub":
-		op.Client = rapid.IntRange(0, 3).Draw(t, "client")
-		op.UpdatesOnly = rapid.Bool().Draw(t, "updates-only")
-		op.List = genSubList(t, []string{"a", "a", "b", Glob})
-	case "end":
-		op.Client = rapid.IntRange(0, 3).Draw(t, "client")
-	case "notify":
-		op.NPrefix = &GPath{Target: rapid.SampledFrom([]string{"a", "a", "b"}).Draw(t, "target"),
-			Origin: rapid.SampledFrom([]string{"", "", "a", "b"}).Draw(t, "origin")}
-		pe := genGPath(t, plainAlpha, 0, 1)
-		op.NPrefix.Elems, op.NPrefix.Legacy = pe.Elems, pe.Legacy
-		op.Notif = genNotif(t, 3)
-	}
-	return op
-}
-
-func genSrvScenario(t *rapid.T) *SrvScenario {
-	ok := func(op SrvOp) bool { return op.Kind != "notify" || !isTargetDeleteShape(op.Notif, op.NPrefix) }
-	return &SrvScenario{Ops: rapid.SliceOfN(rapid.Custom(genSrvOp).Filter(ok), 1, 14).Draw(t, "ops")}
-}
 
 // TestC06Server drives the real subscribe.Server.
 func TestC06Server(t *testing.T) {
@@ -630,6 +491,18 @@ func replayOne(t *testing.T, rf *vstat.ReplayFile) string {
 		}
 		if _, err := runContainment(&tc); err != nil {
 			return err.Error()
+		}
+	case rf.Part == "inflight":
+		var sc ConcScenario
+		if err := json.Unmarshal(rf.Scenario, &sc); err != nil {
+			return "bad scenario: " + err.Error()
+		}
+		// A paused round reproduces at once; a free round depends on the
+		// scheduler, so the scenario is given a number of attempts.
+		for attempt := 0; attempt < 200; attempt++ {
+			if _, err := runConc(&sc); err != nil {
+				return err.Error()
+			}
 		}
 	case rf.Part == "server":
 		var sc SrvScenario
